@@ -22,6 +22,7 @@ func (w *waiter) match() {
 type chanCore struct {
 	recvW []*waiter // parked receivers (incl. selects)
 	sendW []*waiter // parked senders (incl. selects), val holds the offered value
+	hb    SyncClock // happens-before: every operation on the channel publishes into / takes from it (a superset of the real edges)
 }
 
 type Chan[T any] struct {
@@ -130,8 +131,10 @@ func Send[T any](c *Chan[T], v T) {
 	if c == nil {
 		rt.Block(func() bool { return false })
 	}
+	HBRelease(&c.hb)
 	if c.sendReady() {
 		c.doSend(v)
+		HBAcquire(&c.hb)
 		return
 	}
 	w := &waiter{val: v, isSend: true}
@@ -141,6 +144,7 @@ func Send[T any](c *Chan[T], v T) {
 	if !w.matched {
 		panic("send on closed channel")
 	}
+	HBAcquire(&c.hb)
 }
 
 func Recv2[T any](c *Chan[T]) (T, bool) {
@@ -152,13 +156,16 @@ func Recv2[T any](c *Chan[T]) (T, bool) {
 	if c == nil {
 		rt.Block(func() bool { return false })
 	}
+	HBRelease(&c.hb)
 	if c.recvReady() {
+		HBAcquire(&c.hb)
 		return c.doRecv()
 	}
 	w := &waiter{}
 	c.recvW = append(c.recvW, w)
 	rt.Block(func() bool { return w.matched || c.closed || len(c.buf) > 0 })
 	c.recvW = remove(c.recvW, w)
+	HBAcquire(&c.hb)
 	if w.matched {
 		return asT[T](w.val), true
 	}
@@ -178,6 +185,7 @@ func Close[T any](c *Chan[T]) {
 	if c.closed {
 		panic("close of closed channel")
 	}
+	HBRelease(&c.hb)
 	c.closed = true
 }
 
@@ -186,6 +194,7 @@ func TrySend[T any](c *Chan[T], v T) bool {
 	if c.closed {
 		return false
 	}
+	HBRelease(&c.hb)
 	if c.sendReady() {
 		c.doSend(v)
 		return true
@@ -203,6 +212,7 @@ type Case struct {
 	isSend bool
 	val    interface{}
 	ch     interface{}
+	hb     *SyncClock
 }
 
 type SelResult struct {
@@ -215,7 +225,7 @@ func RecvCase[T any](c *Chan[T]) Case {
 	if c == nil {
 		return Case{ready: func() bool { return false }}
 	}
-	return Case{ready: c.recvReady, ch: c,
+	return Case{ready: c.recvReady, ch: c, hb: &c.hb,
 		do:     func(r *SelResult) { v, ok := c.doRecv(); r.val, r.ok = v, ok },
 		park:   func(w *waiter) { c.recvW = append(c.recvW, w) },
 		unpark: func(w *waiter) { c.recvW = remove(c.recvW, w) }}
@@ -225,7 +235,7 @@ func SendCase[T any](c *Chan[T], v T) Case {
 	if c == nil {
 		return Case{ready: func() bool { return false }, isSend: true}
 	}
-	return Case{ready: c.sendReady, ch: c, isSend: true, val: v,
+	return Case{ready: c.sendReady, ch: c, isSend: true, val: v, hb: &c.hb,
 		do:     func(r *SelResult) { c.doSend(v) },
 		park:   func(w *waiter) { c.sendW = append(c.sendW, w) },
 		unpark: func(w *waiter) { c.sendW = remove(c.sendW, w) }}
@@ -243,6 +253,18 @@ func Select(hasDefault bool, cases ...Case) SelResult {
 	if rt.Killing() {
 		panic(killT{})
 	}
+	for _, c := range cases {
+		if c.hb != nil {
+			HBRelease(c.hb)
+		}
+	}
+	defer func() {
+		for _, c := range cases {
+			if c.hb != nil {
+				HBAcquire(c.hb)
+			}
+		}
+	}()
 	readyIdx := func() []int {
 		var out []int
 		for i, c := range cases {
